@@ -12,7 +12,7 @@ import itertools
 import json
 
 from ..base import Prop
-from ..common import answer, err_kind, ev_tuple, mk_event, p_ev, p_list
+from ..common import answer, err_kind, ev_tuple, mk_event, p_ev, p_list, warm_up
 
 SEC = 1_000_000
 
@@ -246,6 +246,8 @@ class C15(Prop):
                  "l2": chain_from(pool, rng.randint(0, 14), rng.random() < 0.3)}
             if rng.random() < 0.2:
                 c["tz"] = [rng.choice([0, 60, -330, 765]), rng.choice([0, -480, 345])]
+            if rng.random() < 0.08:
+                c["warm"] = True
             out.append(("random", c))
             if rng.random() < 0.25:
                 out.append(("random-same-data", {**c, "same": True}))
@@ -312,6 +314,16 @@ class C15(Prop):
         e1 = [mk_event(e, tz[0]) for e in f1]
         e2 = [mk_event(e, tz[1]) for e in f2]
         keep1, keep2 = list(e1), list(e2)
+        if case.get("warm"):
+            # the same Event objects (same ids, same instants) went through the function before with other durations, and the
+            # pieces it returned then are what a chained call would be handed
+            warm_up(lambda: union_no_overlap(e1, e2), e1 + e2)
+            try:
+                first = union_no_overlap(e1, e2)
+                union_no_overlap(e1, first)
+                union_no_overlap(first, e2)
+            except Exception:  # noqa: BLE001 - discarded
+                pass
         try:
             r = union_no_overlap(e1, e2)
         except (AttributeError, TypeError, IndexError, ValueError, KeyError) as ex:
